@@ -37,9 +37,13 @@ TRUSTED = ['translator/pybody.py (meaning given to the Python subset; reviewed p
 
 
 def for_property(pid: str) -> dict:
-    """the tie file and theorems a property's model rests on (nothing for a property without translated bodies)"""
+    """narrow the module-level LEAN_TARGETS / THEOREMS to the tie files and theorems property `pid`'s model rests on
+    (nothing for a property without translated bodies); called by the engine before it reads them"""
+    global LEAN_TARGETS, THEOREMS
     mods = BY_PROPERTY.get(pid, [])
-    return dict(LEAN_TARGETS=[m for m, _ in mods], THEOREMS={m: list(t) for m, t in mods})
+    LEAN_TARGETS = [m for m, _ in mods]
+    THEOREMS = {m: list(t) for m, t in mods}
+    return dict(LEAN_TARGETS=LEAN_TARGETS, THEOREMS=THEOREMS)
 
 
 def cases(rng, tier):
